@@ -1183,3 +1183,18 @@ Proof.
   unfold cur_inv in Hinv. rewrite Hv in Hinv.
   unfold in_int64, min_int64, max_int64, two63. apply andb_true_intro. split; apply Z.leb_le; lia.
 Qed.
+
+(* an OPEN that reports an error - an undeclared or pseudo cursor, one that is open already, a statement that is
+   missing or not a single SELECT, a query that fails (also after its result was built: SELECT .. INTO of several
+   records) - leaves every cursor, and everything else, as it was: in particular the cursor is still closed *)
+Lemma failed_open_changes_nothing add st c arg st1 res :
+  step_simple add st (SOpen c arg) = (st1, res) -> r_err res <> None -> st1 = st.
+Proof.
+  cbn [step_simple]. intros H Hn.
+  destruct (bl_find c (blocks st)) as [cur|]; [|inversion H; reflexivity].
+  destruct (c_pseudo cur); [inversion H; reflexivity|].
+  destruct (c_view cur); [inversion H; reflexivity|].
+  destruct (resolve st (c_src cur) arg) as [e|q]; [inversion H; reflexivity|].
+  destruct (db_get q (db st)); [|inversion H; reflexivity].
+  inversion H. subst res. cbn in Hn. contradiction.
+Qed.
